@@ -335,6 +335,9 @@ class Frame:
                     return
                 raise AnalysisError("engine B: unsupported slice store")
             k = self.expr(t.slice)
+            if isinstance(o, dict):
+                o[_dkey(k)] = v
+                return
             if hasattr(o, "store_index"):
                 o.store_index(self, k, v, t)
             elif isinstance(o, list) and isinstance(k, int):
@@ -466,6 +469,17 @@ class Frame:
             if isinstance(v, ast.FormattedValue):
                 self.expr(v.value)
         return Opaque("f-string")
+
+    def e_Dict(self, e):
+        out = {}
+        for k, v in zip(e.keys, e.values):
+            if k is None:
+                raise AnalysisError("engine B: dict unpacking")
+            out[_dkey(self.expr(k))] = self.expr(v)
+        return out
+
+    def e_Set(self, e):
+        return [self.expr(x) for x in e.elts]
 
     def e_List(self, e):
         return [self.expr(x) for x in e.elts]
@@ -690,6 +704,8 @@ class Frame:
                 return a in b
             lab = "%s@%d" % (_short(node), getattr(node, "lineno", 0))
             return B.decide_ge0(Aff.of(a) - b.start, lab + " [lo]") and B.decide_ge0(Aff(b.stop - 1) - Aff.of(a), lab + " [hi]")
+        if isinstance(b, dict):
+            return _dkey(a) in b
         if isinstance(b, (list, tuple)):
             for x in b:
                 if self.compare(ast.Eq(), a, x, node):
@@ -708,7 +724,7 @@ class Frame:
             return v != 0
         if isinstance(v, Aff):
             return not B.decide_eq0(v, "truth(%s)" % (_short(node) if node is not None else "?"))
-        if isinstance(v, (list, tuple, str)):
+        if isinstance(v, (list, tuple, str, dict)):
             return len(v) > 0
         if hasattr(v, "truth"):
             return v.truth(self, node)
@@ -729,6 +745,11 @@ class Frame:
                 return o[lo:hi]
             raise AnalysisError("engine B: unsupported slice %r[%r:%r]" % (o, lo, hi))
         k = self.expr(e.slice)
+        if isinstance(o, dict):
+            kk = _dkey(k)
+            if kk not in o:
+                raise PyRaise("KeyError", e)
+            return o[kk]
         if hasattr(o, "load_index"):
             return o.load_index(self, k, e)
         if isinstance(o, (list, tuple)):
@@ -791,6 +812,8 @@ class Frame:
             return o.getattr(self, attr, node)
         if isinstance(o, list):
             return Native(lambda ev, a, k, n: _list_method(self, o, attr, a, n), "list." + attr)
+        if isinstance(o, dict):
+            return Native(lambda ev, a, k, n: _dict_method(self, o, attr, a, n), "dict." + attr)
         raise AnalysisError("engine B: attribute %s of %r at %s:%d"
                             % (attr, o, self.mod.name, getattr(node, "lineno", 0)))
 
@@ -835,6 +858,38 @@ def _short(node):
     return s if len(s) < 60 else s[:57] + "..."
 
 
+def _dkey(k):
+    if isinstance(k, Aff):
+        kk = B.norm(k)
+        if kk.is_const():
+            return int(kk.c)
+        raise AnalysisError("engine B: symbolic dictionary key")
+    if isinstance(k, list):
+        raise AnalysisError("engine B: unhashable dictionary key")
+    return k
+
+
+def _dict_method(fr, o, attr, args, node):
+    if attr == "get":
+        return o.get(_dkey(args[0]), args[1] if len(args) > 1 else None)
+    if attr == "setdefault":
+        return o.setdefault(_dkey(args[0]), args[1] if len(args) > 1 else None)
+    if attr == "pop":
+        if _dkey(args[0]) in o:
+            return o.pop(_dkey(args[0]))
+        if len(args) > 1:
+            return args[1]
+        raise PyRaise("KeyError", node)
+    if attr == "clear":
+        o.clear()
+        return None
+    if attr in ("keys", "values", "items"):
+        return list(getattr(o, attr)())
+    if attr == "copy":
+        return dict(o)
+    raise AnalysisError("engine B: dict method %s" % attr)
+
+
 def _list_method(fr, o, attr, args, node):
     if attr == "append":
         o.append(args[0])
@@ -855,7 +910,7 @@ def _b_len(ev, args, kw, node):
     v = args[0]
     if hasattr(v, "length"):
         return v.length()
-    if isinstance(v, (list, tuple, str)):
+    if isinstance(v, (list, tuple, str, dict)):
         return len(v)
     raise AnalysisError("engine B: len(%r)" % (v,))
 
